@@ -13,33 +13,46 @@ calls (`has_comment`, `update_comment`, `update_bufs` — hand-written, NOT tran
 `Model/Btor2ParserExt.lean`.
 
 The placeholders.  The Rust `try_node` returns a `Node<'static>` whose string / slice payloads are placeholders
-(`""`, `"".into()`, `&[]`) and leaves the real contents in the three buffers; `next_line` patches them in.  The
-generated code does exactly that (placeholders are `[]`); the model builds the final values directly.  The
-theorems therefore relate (placeholder value, buffers afterwards) to the model's value: `stripV v` is the
-placeholder variant of `v` and `vbufs v s` the buffers after parsing `v` from buffers `s` (`const_buf` replaced for
-the three textual constants, `node_buf` for `justice`, everything else — stale contents included — unchanged).
-A thrown `ParseError` leaves only the reader state on both sides.
+(`""`, `"".into()`, `&[]`) and leaves the real contents in the three buffers; `next_line` patches them in
+(`update_comment`, `update_bufs`).  The generated code does exactly that (placeholders are `[]`); the model builds
+the final values directly.  The theorems therefore relate (placeholder value, buffers afterwards) to the model's
+value; the buffers are ghost state on the model side:
+  `stripV v`            the placeholder variant of `v`
+  `vbufs v s`           the buffers after parsing the variant `v` from buffers `s`: `const_buf` replaced for the three
+                        textual constants, `node_buf` for `justice`, everything else — stale contents included — unchanged
+  `placeT (sym, hc)`    the placeholder `(symbol, comment)` pair: `Some("")` for a symbol, `Some("")` iff a comment started
+  `sbufs sym s`         `symbol_buf` replaced by the symbol if there is one
+  `place (node, hc)`    the placeholder node; `nbufs r s` = `sbufs` after `vbufs` for the node of `r`
+  `lbufs r s`           the buffers after `next_line` returned `r`: those of its node, unchanged for a comment line / EOF
+A thrown `ParseError` leaves only the reader state on both sides.  Every equation below is between `BPM`
+computations, i.e. it holds for every reader state and every initial contents of the buffers; no hypotheses.
 
-What is tied (every statement for every reader state and every initial buffer contents, no hypotheses):
+What is tied:
+* `next_line_tied` / `next_line_run` — THE RESULT: the generated `next_line`, run from any buffers `s`, reads what the
+  model's `Btor2.nextLine` reads, fails exactly when it fails (same error, same reader state), returns the SAME
+  `Option Line` — every placeholder has been replaced by the right buffer contents, the comment body is in place — and
+  leaves the buffers `lbufs r s`.  `next_line_result`: forgetting the buffers, it is `Btor2.nextLine`.
+* `try_node_tied` / `try_node_run`: the generated `try_node` = the model's `Btor2.tryNode`, returning `place` of the
+  model's `(node, has_comment)` and leaving `nbufs r s`.
 * `try_node_is_fragments`: the generated `try_node` is, literally, `node_id`, `required_space`, the keyword,
   then `genVariant` (verbatim copy of the generated `match node_token { .. }`), then `genTrailerK` (verbatim copy
-  of the generated symbol / comment chain) and the `Node { .. }` literal.  This is the link between the
-  generated definition and the two fragments the next theorems are about.
-* `variant_tied` — the `NodeVariant` / `ValueVariant` match of `try_node`, i.e. the part that decides how many
-  operands every keyword takes: for every keyword token, `genVariant t` reads exactly what the model's
-  `Btor2.nodeVariant t` (with `Btor2.valueVariant`) reads, fails exactly when it fails, returns the placeholder
-  `stripV v` of the model's variant `v` and leaves the buffers `vbufs v s`.
+  of the generated symbol / comment chain, the rest as continuation) and the `Node { .. }` literal.
+* `variant_tied` / `variant_run` — the `NodeVariant` / `ValueVariant` match of `try_node`, i.e. the part that decides
+  how many operands every keyword takes: `genVariant t` = `Btor2.nodeVariant t` (with `Btor2.valueVariant`),
+  returning `stripV v` and leaving `vbufs v s`.
+* `trailer_tied`: the symbol / comment chain = `Btor2.trailer`, passing `placeT tr` on and leaving `sbufs tr.1 s`.
 * `justice_loop_tied`: the `for _ in 0..count` loop = `Btor2.justiceLoop`, for every fuel, count and accumulator
   (`node_buf` = the reversed accumulator).  Convention: the `for` loop is translated with the model's fuel
   `rest.length + 2` and the model's out-of-fuel value (see `tools/unit_btor2parser.py`); that the fuel is never
-  used up is not shown here.
-* `new_tied`, `try_comment_tied`, `check_io_error_tied`, `patch_node_spec` (what `update_comment` followed by
-  `update_bufs` makes of a placeholder node: every placeholder replaced, nothing else changed).
+  used up is not shown here (both sides panic with "fuel" together).
+* `fill_variant_spec`, `fill_symbol_spec`, `patch_node_spec`: `update_bufs` (hand contract) applied to a placeholder with
+  the buffers `try_node` left restores the model's variant / symbol; `update_comment` then `update_bufs` replace every
+  placeholder of a node and nothing else.
+* `new_tied`, `try_comment_tied`, `check_io_error_tied`.
 
-What is NOT tied here (stays tied by the correspondence runs only): the symbol / comment chain `genTrailerK`
-against `Btor2.trailer`, hence `try_node` against `Btor2.tryNode` and `next_line` against `Btor2.nextLine`
-(statements not registered: no proof yet).  No discrepancy between the code and the model was found in the parts
-compared.
+What is NOT tied here: `Line::has_comment` / `update_comment` / `update_bufs` of btor2.rs are hand-written contracts
+(`Model/Btor2ParserExt.lean`), not translations; the `from_*` constructors; termination of the `justice` loop within
+its fuel.  No discrepancy between the code and the model was found.
 -/
 import Flussab.Proof.TieBtor2Parser
 
@@ -48,7 +61,7 @@ namespace TieBtor2Parser
 
 open TieBtor2ParserAux Btor2ParserExt
 
-export TieBtor2ParserAux (genVariant genTrailerK vbufs stripV)
+export TieBtor2ParserAux (genVariant genTrailerK vbufs stripV sbufs placeT place nbufs lbufs)
 
 theorem try_node_is_fragments : Gen.Btor2Parser.tryNode = (do
     let t1 ← Btor2ParserExt.tok Flussab.Btor2.nodeId
@@ -75,6 +88,48 @@ theorem variant_run (t : Gen.Btor2.NodeToken) (s : Btor2.ParserS) :
   show (tok (Btor2.nodeVariant t) >>= fun v => modifyP (vbufs v) >>= fun _ => pure (stripV v)) s lr = _
   rw [bpm_bind_apply, tok_apply, PM.bind_apply]
   rcases Btor2.nodeVariant t lr with ⟨_ | v, lr'⟩ <;> rfl
+
+theorem trailer_tied {β : Type} (k : Option VBytes × Option VBytes → BPM β) :
+    genTrailerK k = tok Btor2.trailer >>= fun tr => modifyP (sbufs tr.1) >>= fun _ => k (placeT tr) :=
+  genTrailerK_eq k
+
+theorem try_node_tied :
+    Gen.Btor2Parser.tryNode = tok Btor2.tryNode >>= fun r => modifyP (nbufs r) >>= fun _ => pure (r.map place) :=
+  tryNode_eq
+
+/-- The same, run on buffers `s`. -/
+theorem try_node_run (s : Btor2.ParserS) :
+    Gen.Btor2Parser.tryNode.run s = (Btor2.tryNode >>= fun r => pure (r.map place, nbufs r s)) := by
+  rw [tryNode_eq]
+  funext lr
+  show (tok Btor2.tryNode >>= fun r => modifyP (nbufs r) >>= fun _ => pure (r.map place)) s lr = _
+  rw [bpm_bind_apply, tok_apply, PM.bind_apply]
+  rcases Btor2.tryNode lr with ⟨_ | v, lr'⟩ <;> rfl
+
+theorem next_line_tied :
+    Gen.Btor2Parser.nextLine = tok Btor2.nextLine >>= fun r => modifyP (lbufs r) >>= fun _ => pure r :=
+  nextLine_eq
+
+/-- The same, run on buffers `s`: the model's line, and the buffers as ghost state. -/
+theorem next_line_run (s : Btor2.ParserS) :
+    Gen.Btor2Parser.nextLine.run s = (Btor2.nextLine >>= fun r => pure (r, lbufs r s)) := by
+  rw [nextLine_eq]
+  funext lr
+  show (tok Btor2.nextLine >>= fun r => modifyP (lbufs r) >>= fun _ => pure r) s lr = _
+  rw [bpm_bind_apply, tok_apply, PM.bind_apply]
+  rcases Btor2.nextLine lr with ⟨_ | v, lr'⟩ <;> rfl
+
+/-- Forgetting the buffers, the generated `next_line` is the model's. -/
+theorem next_line_result (s : Btor2.ParserS) :
+    (Prod.fst <$> Gen.Btor2Parser.nextLine.run s : PM (Option Btor2.Line)) = Btor2.nextLine := by
+  rw [next_line_run]
+  simp only [map_eq_pure_bind, bind_assoc, pure_bind, bind_pure]
+
+theorem fill_variant_spec (v : Btor2.NodeVariant) (s : Btor2.ParserS) :
+    updateVariant (vbufs v s).constBuf (vbufs v s).nodeBuf (stripV v) = v := fill_variant v s
+
+theorem fill_symbol_spec (sym : Option VBytes) (s : Btor2.ParserS) :
+    (sym.map fun _ => ([] : VBytes)).map (fun _ => (sbufs sym s).symbolBuf) = sym := fill_symbol sym s
 
 theorem justice_loop_tied (fuel remaining : Nat) (acc : List Nat) :
     (modifyP (fun r => { r with nodeBuf := acc.reverse }) >>= fun _ => Gen.Btor2Parser.tryNode.loop1 fuel remaining) =
